@@ -26,7 +26,7 @@ def in_domain(c):
 
 
 def run(rep, model, tier, seed, broken=()):
-    ast_run(rep, model, tier, seed, "C11", "test-entries", 1, {5, 6, 7}, 300, 12000,
+    ast_run(rep, model, tier, seed, "C11", "test-entries", 1, {5, 6, 7}, 700, 12000,
             weights=dict(test=6, add_test=5, defn=1, generic=1, set=0.3, option=0.3, klass=0.5, cpa=0.3,
                          block=1, dangling=0.2),
             in_domain=in_domain,
